@@ -196,6 +196,23 @@ def gen_case(rng, index, tier):
                     lines.insert(at, 'Path=' + decoy)
                     nd['c'] = '\n'.join(lines)
                     e['decoy_path'] = decoy
+    # foreign .trashinfo files in a volume trash directory that hold an
+    # ABSOLUTE Path= - of a place that is not even on that volume (written by
+    # a tool that always records absolute paths, or after --force-volume)
+    for e in entries:
+        if e['volume'] and not e['home'] and rng.random() < 0.12 and \
+                not e.get('decoy_path') and not e.get('mountpoint'):
+            ik = trashworld.pair_keys(e)[0]
+            newloc = 'abs-elsewhere/' + os.path.basename(e['loc'])
+            for nd in L.nodes:
+                if nd['p'] == ik and isinstance(nd.get('c'), str) and \
+                        nd['c'].startswith('[Trash Info]\nPath='):
+                    lines = nd['c'].split('\n')
+                    lines[1] = 'Path=@@R@@/' + spec.pct_encode(newloc.encode('utf-8'))
+                    nd['c'] = '\n'.join(lines)
+                    nd['sub'] = True
+                    e['loc'] = newloc
+                    e['absolute_in_volume_trash'] = True
     fulls = ['/' + e['loc'] for e in entries]
     alias = None
     vol_entries = [e for e in entries if e['volume'] and not e['home']]
@@ -212,7 +229,8 @@ def gen_case(rng, index, tier):
         L.env['TRASH_VOLUMES'] = ':'.join(items)
         alias = {'vol': v, 'name': aname}
         fulls += ['/' + aname + e['loc'][len(v):] for e in vol_entries
-                  if e['volume'] == v] * 3
+                  if e['volume'] == v and
+                  not e.get('absolute_in_volume_trash')] * 3
     pat, pclass = make_pattern(rng, [os.path.basename(e['loc']) for e in entries], fulls)
     case = L.desc()
     case['entries'] = entries
@@ -255,7 +273,8 @@ def run_case(case):
             m_spec = spec.glob_match(subject, pat)
             m_fn = fnmatch.fnmatchcase(subject, pat)
             al = case.get('alias')
-            if al and pat.startswith('/') and e['volume'] == al['vol'] and not e['home']:
+            if al and pat.startswith('/') and e['volume'] == al['vol'] and \
+                    not e['home'] and not e.get('absolute_in_volume_trash'):
                 # the entry's other full path, through the volume's second name
                 full2 = w.abs(al['name'] + e['loc'][len(al['vol']):])
                 m_spec = m_spec or spec.glob_match(full2, pat)
